@@ -26,6 +26,7 @@ DECIDES = (
     ' the angle between quarter normals is computed with a clipped cosine (C11.TRIG-DOMAIN); Cylinder.fill accepts a ring iff it has as many segments as the filling sketch has outer faces (C11.FILL-CONFORMAL); the sign of a sector angle reaches the arc centre (C11.ARC-SIDE = C08.SIGN-FLOWS).'
     ' Axes and directions handed to constructors are vectors, not positions (C11.AFFINE-KINDS); TransformedStack tiers are chained start/mid/end from their own start sketch (C11.STACK-CHAIN); one Angle record per side edge (C11.NO-SHARED-PARTS).'
     " Origin arcs of the round sketches join two neighbouring points of one generated ring, are centred at that ring's pattern centre, and a ring that is round is round on every segment (C11.ARC-RINGS); every face is moved once (C11.MOVED-ONCE); transform() scales all parts about one origin fixed beforehand (C11.TRANSFORM-ROUTING)."
+    ' Every chain() reverses exactly one direction quantity in its start-face branch (part of C11.CHAIN-SOURCE); product terms of the spline-round constructors combine quantities of one axis (C11.AXIS-TERMS); the reflection matrix (C11.MIRROR-MATRIX); constructors do not transform the entities they are handed (C11.ARGUMENTS-UNTOUCHED).'
 )
 NOT_DECIDED = (
     "Jacobians/handedness in space and arcs on the circle (geometry); the merged topology of Half/Spline Disk/Ring sketches "
